@@ -48,14 +48,16 @@ static int g_rt_depth = 0;             // inside a JitRuntime operation
 static bool g_malloc_failable = false; // malloc is a failable request only inside JitRuntime::add
 static bool g_munmap_failable = false; // munmap is failable only in release / release_dual_mapping called by the driver
 
-struct Env { bool memfd = true, shmexec = true, rwx = true, oldkernel = false, hugesim = false; int eexist = 0; };
+struct Env { bool memfd = true, shmexec = true, rwx = true, oldkernel = false, hugesim = false, lpfile = true; int eexist = 0; };
 static Env g_env;
 static int g_eexist_left = 0;
 
-struct Plan { std::vector<std::pair<long, int>> ks; bool sticky = false; };
+struct PlanEntry { long k; int err; char letter; };      // letter 0: k-th failable request overall, else k-th request of that class
+struct Plan { std::vector<PlanEntry> ks; bool sticky = false; };
 static Plan g_plan;
 static long g_fcount = 0;              // failable requests seen while armed
 static std::string g_fseq;             // one letter per failable request (for "each")
+static long g_lcount[128];             // failable requests per class
 
 static const char* errno_name(int e) {
   switch (e) {
@@ -79,7 +81,11 @@ static int fault(char letter, long* k_out) {
   long k = ++g_fcount;
   g_fseq.push_back(letter);
   *k_out = k;
-  for (auto& p : g_plan.ks) if (p.first == k || (g_plan.sticky && k >= p.first)) return p.second;
+  long kl = ++g_lcount[int(letter) & 127];
+  for (auto& p : g_plan.ks) {
+    if (p.letter == 0 && (p.k == k || (g_plan.sticky && k >= p.k))) return p.err;
+    if (p.letter == letter && (p.k == kl || (g_plan.sticky && kl >= p.k))) return p.err;
+  }
   return 0;
 }
 
@@ -259,6 +265,7 @@ static int do_open(const char* path, int flags, mode_t mode, bool is64) {
   bool pol = false, creat = (flags & O_CREAT) != 0;
   if (inj) err = inj;
   else if (creat && g_eexist_left > 0) { g_eexist_left--; err = EEXIST; pol = true; }
+  else if (!creat && !g_env.lpfile && strstr(path, "hpage_pmd_size")) { err = ENOENT; pol = true; }
   else { fd = is64 ? __real_open64(path, flags, mode) : __real_open(path, flags, mode); if (fd < 0) err = errno; }
   if (fd >= 0 && fd < 4096) g_fdkind[fd] = creat ? FD_FILE : FD_RO;
   vj::W w;
@@ -641,6 +648,7 @@ VirtMem::Info wrap_info() noexcept {
 }
 
 static long sys_hpage_size() {
+  if (!g_env.lpfile) return 0;
   int fd = __real_open("/sys/kernel/mm/transparent_hugepage/hpage_pmd_size", O_RDONLY);
   if (fd < 0) return 0;
   char buf[32] = {0};
@@ -1024,7 +1032,7 @@ struct Driver {
 };
 
 // ---- one execution, inside a forked child ----
-static void run_execution(const vj::Value& sc, const std::vector<std::pair<long, int>>& ks, const char* trace_path, int count_fd) {
+static void run_execution(const vj::Value& sc, const std::vector<PlanEntry>& ks, const char* trace_path, int count_fd) {
   g_out = fopen(trace_path, "a");
   if (!g_out) _exit(4);
   vj::install_abort_handlers(g_out);
@@ -1037,6 +1045,7 @@ static void run_execution(const vj::Value& sc, const std::vector<std::pair<long,
   if (env.has("oldkernel")) g_env.oldkernel = env["oldkernel"].b;
   if (env.has("hugesim")) g_env.hugesim = env["hugesim"].b;
   if (env.has("eexist")) g_env.eexist = int(env["eexist"].i());
+  if (env.has("lpfile")) g_env.lpfile = env["lpfile"].b;
   g_eexist_left = g_env.eexist;
   g_plan.ks = ks;
   g_plan.sticky = sc["sticky"].b;
@@ -1045,9 +1054,13 @@ static void run_execution(const vj::Value& sc, const std::vector<std::pair<long,
   vj::W w;
   w.beginObj().kv("e", "Reset").kv("x", sc["x"].s()).kv("page", (long long)getpagesize());
   w.key("env").beginObj().kv("memfd", g_env.memfd).kv("shmexec", g_env.shmexec).kv("rwx", g_env.rwx).kv("oldkernel", g_env.oldkernel)
-   .kv("hugesim", g_env.hugesim).kv("eexist", g_env.eexist).endObj();
+   .kv("hugesim", g_env.hugesim).kv("eexist", g_env.eexist).kv("lpfile", g_env.lpfile).endObj();
   w.key("fail").beginArr();
-  for (auto& p : ks) { w.beginArr().val((long long)p.first).val(errno_name(p.second)).endArr(); }
+  for (auto& p : ks) {
+    w.beginArr();
+    if (p.letter) { char l[2] = {p.letter, 0}; w.val(l); }
+    w.val((long long)p.k).val(errno_name(p.err)).endArr();
+  }
   w.endArr().kv("sticky", g_plan.sticky).endObj();
   emit(w);
   for (const vj::Value& op : sc["ops"].arr) d.run_op(op);
@@ -1063,7 +1076,7 @@ static void run_execution(const vj::Value& sc, const std::vector<std::pair<long,
   _exit(0);
 }
 
-static std::string spawn(const vj::Value& sc, const std::vector<std::pair<long, int>>& ks, const char* trace_path, bool want_seq) {
+static std::string spawn(const vj::Value& sc, const std::vector<PlanEntry>& ks, const char* trace_path, bool want_seq) {
   int pfd[2] = {-1, -1};
   if (want_seq && pipe(pfd) != 0) { perror("pipe"); exit(3); }
   fflush(nullptr);
@@ -1132,11 +1145,14 @@ int main(int argc, char** argv) {
       nexec++;
       bool all = sc["errnos"].s() == "all";
       for (size_t k = 1; k <= seq.size(); k++)
-        for (int e : errnos_for(seq[k - 1], all)) { spawn(sc, {{long(k), e}}, trace, false); nexec++; }
+        for (int e : errnos_for(seq[k - 1], all)) { spawn(sc, {PlanEntry{long(k), e, 0}}, trace, false); nexec++; }
     }
     else {
-      std::vector<std::pair<long, int>> ks;
-      if (fail.kind == vj::Value::Arr) for (const vj::Value& x : fail.arr) ks.emplace_back(long(x[0].i()), errno_value(x[1].s()));
+      std::vector<PlanEntry> ks;
+      if (fail.kind == vj::Value::Arr) for (const vj::Value& x : fail.arr) {
+        if (x.size() == 3) ks.push_back(PlanEntry{long(x[1].i()), errno_value(x[2].s()), x[0].s()[0]});
+        else ks.push_back(PlanEntry{long(x[0].i()), errno_value(x[1].s()), 0});
+      }
       spawn(sc, ks, trace, false);
       nexec++;
     }
